@@ -55,3 +55,8 @@ PROP["manifest"]["level_text"] += (
     "the cache model holds (valueEqual_eq_equal; symmetric and sound: valueEqual_symm, valueEqual_sound); a notification with several "
     "updates/deletes stores what its units one at a time store when no future threshold is configured "
     "(multi_eq_units_at_gnmiUpdate_no_threshold; with a threshold: known finding D26).")
+
+PROP["assumptions"] += [
+    "`ca serve` calls the real subscribe.Server.MakeSubscribeResponse on every stored leaf: the model's arm is a no-op "
+    "(serving a leaf does not write to the cache), which is the statement being checked",
+]
